@@ -82,3 +82,4 @@ proof fn lemma_div_corners(al: f32, au: f32, bl: f32, bu: f32, x: f32, y: f32, l
     ax_le_trans(lo, a, p); ax_le_trans(lo, b, p); ax_le_trans(p, a, hi); ax_le_trans(p, b, hi);
 }
 
+
